@@ -900,7 +900,10 @@ fn eval_image(stats: &mut Stats, ctx: &Ctx, image: &Image, point: &serde_json::V
     }
     // ---- continuation: the recovered log is fully usable
     let depth = if structural { cfg.cont_struct } else { cfg.cont_other };
-    if depth == 0 || !matches!(cfg.oracle, Oracle::C02 | Oracle::C04) {
+    // (C03: under a policy that persists every call, what the continuation acknowledges has been
+    // persisted, and the restart that ends it is then no different from a crash)
+    let c03_cont = cfg.oracle == Oracle::C03 && cfg.policy.per_op_persist().is_some() && !cfg.power_loss;
+    if depth == 0 || !(matches!(cfg.oracle, Oracle::C02 | Oracle::C04) || c03_cont) {
         return;
     }
     let alpha = cont_alphabet();
